@@ -49,7 +49,7 @@ def lexical(ctx, conv):
             v = -v
         return sign + d, ("int", v)
     if isinstance(conv, Types.Decimal):
-        shape = ctx.choice("shape", [(2, 2, "."), (1, 2, ","), (1, 0, "")] if QUICK[0] else [(1, 0, ""), (2, 2, "."), (1, 2, ","), (0, 2, "."), (3, 1, ",")])
+        shape = ctx.choice("shape", [(2, 2, "."), (1, 2, ","), (1, 0, ""), (27, 3, ".")] if QUICK[0] else [(1, 0, ""), (2, 2, "."), (1, 2, ","), (0, 2, "."), (3, 1, ","), (27, 3, "."), (30, 2, ",")])
         ni, nf, sep = shape
         sign = ctx.choice("sign", ["", "+", "-"])
         di = ctx.str("i", ni, "0-9") if ni else ""
